@@ -520,7 +520,7 @@ def reach_rejected_api(which: int) -> int:
 NAMES3 = [None, 'A', 'B']
 
 
-def isolation_check(n1, n2, order, explicit2):
+def isolation_check(n1, n2, order, explicit2, osn=('S1', 'S2'), csn=('S1', 'S2')):
     """Two logical files; a zone is added to each in set names n1, n2 (None/'A'/'B'); origins and zones are added in a
     symbolic interleaving.  Either the specification is refused, or every set yielded for file i holds only objects
     added through file i and every object's origin is an origin of its own file."""
@@ -528,10 +528,10 @@ def isolation_check(n1, n2, order, explicit2):
     made = {}
 
     def o1():
-        made['o1'] = add_origin(lf1, 'O1', set_name='S1')
+        made['o1'] = add_origin(lf1, 'O1', set_name=osn[0])
 
     def o2():
-        made['o2'] = add_origin(lf2, 'O2', ref=77 if explicit2 else None, set_name='S2')
+        made['o2'] = add_origin(lf2, 'O2', ref=77 if explicit2 else None, set_name=osn[1])
 
     def z1():
         made['z1'] = lf1.add_zone('Z1', set_name=NAMES3[n1])
@@ -543,7 +543,7 @@ def isolation_check(n1, n2, order, explicit2):
     try:
         for f in seqs[order]:
             f()
-        for (lf, sn) in ((lf1, 'S1'), (lf2, 'S2')):
+        for (lf, sn) in ((lf1, csn[0]), (lf2, csn[1])):
             lf.add_frame('F', channels=(lf.add_channel('C', set_name=sn),), set_name=sn)
             lf.check_objects()
         recs = list(df.generator([[], []]))
@@ -597,6 +597,20 @@ def reach_isolation(n1: int, n2: int, order: int, explicit2: bool) -> int:
     post: _ != 0
     """
     return isolation_check(n1, n2, order, explicit2)
+
+
+def ob_isolation_shared_origin(n1: int, n2: int, order: int, explicit2: bool, named_o: bool, shared_c: bool) -> int:
+    """
+    Both logical files put their origin into the SAME (default or named) ORIGIN set name - the registry hands both the
+    same set object.  The library refuses such a specification when it is checked / generated; it must never emit
+    one file's origin, header reference or objects inside the other (zone set names symbolic, channel / frame sets
+    per file or shared as well).
+    pre: 0 <= n1 <= 2 and 0 <= n2 <= 2 and 0 <= order < 6 and order % SHARD_N == SHARD_I % 6
+    post: _ == 0
+    """
+    osn = ('S', 'S') if named_o else (None, None)
+    csn = (None, None) if shared_c else ('S1', 'S2')
+    return isolation_check(n1, n2, order, explicit2, osn, csn)
 
 
 def kf_isolation_shared(n: int, order: int) -> int:
